@@ -186,6 +186,12 @@ func (s *Session) Discharge(o *Obligation, dir string, sec int, idx int, cross b
 		}
 		return
 	}
+	if o.Cover && o.Group != "" {
+		if _, done := s.covered.Load(o.Group); done {
+			o.Result, o.Solver = "skipped", "group-covered"
+			return
+		}
+	}
 	q := s.Query(o)
 	file := filepath.Join(dir, fmt.Sprintf("o%05d.smt2", idx))
 	os.WriteFile(file, []byte(q), 0o644)
@@ -202,6 +208,9 @@ func (s *Session) Discharge(o *Obligation, dir string, sec int, idx int, cross b
 		total += ms
 		if r == "sat" || r == "unsat" {
 			o.Result, o.Solver, o.Ms, o.Output = r, sv.name, total, out
+			if r == "sat" && o.Cover && o.Group != "" {
+				s.covered.Store(o.Group, true)
+			}
 			if r == "sat" && !o.Cover || r == "sat" && false {
 				// fetch a model
 				os.WriteFile(file, []byte(q+"(get-model)\n"), 0o644)
